@@ -285,6 +285,15 @@ double Interpolation::Integrate(double x_1, double x_2)
 	return sign * integral;
 }
 
+// Smallest (minimum = true) or largest of the tabulated values in [first,last) after scaling with the prefactor, which may be negative.
+double Scaled_Extremum(double prefactor, std::vector<double>::const_iterator first, std::vector<double>::const_iterator last, bool minimum)
+{
+	if((prefactor >= 0.0) == minimum)
+		return prefactor * (*std::min_element(first, last));
+	else
+		return prefactor * (*std::max_element(first, last));
+}
+
 double Interpolation::Local_Minimum(double x_1, double x_2)
 {
 	libphysica::Check_For_Error(x_2 < x_1, "Interpolation::Local_Minimum()", "Faulty order of arguments.");
@@ -292,14 +301,13 @@ double Interpolation::Local_Minimum(double x_1, double x_2)
 	double f_right = Interpolate(x_2);
 	int i_1		   = Locate(x_1);
 	int i_2		   = Locate(x_2);
-	if(i_1 == i_2)
-		return std::min(f_left, f_right);
-	else
-	{
-		// Find the smallest value of function_values between i_1+1 and i_2.
-		double min_entry = *std::min_element(function_values.begin() + i_1 + 1, function_values.begin() + i_2);
-		return std::min({f_left, min_entry, f_right});
-	}
+	double result  = std::min(f_left, f_right);
+	// The pieces are monotone. The minimum is either at the ends or at one of the tabulated points inside [x_1,x_2].
+	int k_first = (x_values[i_1] >= x_1) ? i_1 : i_1 + 1;
+	int k_last	= (x_values[i_2 + 1] <= x_2) ? i_2 + 1 : i_2;
+	if(k_first <= k_last)
+		result = std::min(result, Scaled_Extremum(prefactor, function_values.begin() + k_first, function_values.begin() + k_last + 1, true));
+	return result;
 }
 
 double Interpolation::Local_Maximum(double x_1, double x_2)
@@ -309,24 +317,23 @@ double Interpolation::Local_Maximum(double x_1, double x_2)
 	double f_right = Interpolate(x_2);
 	int i_1		   = Locate(x_1);
 	int i_2		   = Locate(x_2);
-	if(i_1 == i_2)
-		return std::max(f_left, f_right);
-	else
-	{
-		// Find the largest value of function_values between i_1+1 and i_2.
-		double max_entry = *std::max_element(function_values.begin() + i_1 + 1, function_values.begin() + i_2);
-		return std::max({f_left, max_entry, f_right});
-	}
+	double result  = std::max(f_left, f_right);
+	// The pieces are monotone. The maximum is either at the ends or at one of the tabulated points inside [x_1,x_2].
+	int k_first = (x_values[i_1] >= x_1) ? i_1 : i_1 + 1;
+	int k_last	= (x_values[i_2 + 1] <= x_2) ? i_2 + 1 : i_2;
+	if(k_first <= k_last)
+		result = std::max(result, Scaled_Extremum(prefactor, function_values.begin() + k_first, function_values.begin() + k_last + 1, false));
+	return result;
 }
 
 double Interpolation::Global_Minimum()
 {
-	return *std::min_element(function_values.begin(), function_values.end());
+	return Scaled_Extremum(prefactor, function_values.begin(), function_values.end(), true);
 }
 
 double Interpolation::Global_Maximum()
 {
-	return *std::max_element(function_values.begin(), function_values.end());
+	return Scaled_Extremum(prefactor, function_values.begin(), function_values.end(), false);
 }
 
 void Interpolation::Save_Function(std::string filename, unsigned int points)
@@ -449,14 +456,14 @@ double Interpolation_2D::Global_Minimum()
 {
 	std::vector<double> row_minima;
 	for(auto& row : function_values)
-		row_minima.push_back(*std::min_element(row.begin(), row.end()));
+		row_minima.push_back(Scaled_Extremum(prefactor, row.begin(), row.end(), true));
 	return *std::min_element(row_minima.begin(), row_minima.end());
 }
 double Interpolation_2D::Global_Maximum()
 {
 	std::vector<double> row_maxima;
 	for(auto& row : function_values)
-		row_maxima.push_back(*std::max_element(row.begin(), row.end()));
+		row_maxima.push_back(Scaled_Extremum(prefactor, row.begin(), row.end(), false));
 	return *std::max_element(row_maxima.begin(), row_maxima.end());
 }
 
